@@ -39,10 +39,111 @@ fn ichar(i: Interest) -> char {
     if i.is_always() { 'a' } else if i.is_never() { 'n' } else { 's' }
 }
 
+use std::cell::Cell;
+use tracing_subscriber::filter::{dynamic_filter_fn, filter_fn, FilterExt};
+use tracing_subscriber::subscribe::{CollectExt, Subscribe};
+use tracing_subscriber::Registry;
+
+thread_local! { static FLAG: Cell<bool> = const { Cell::new(false) }; }
+
+type BoxF = Box<dyn Filter<Registry> + Send + Sync>;
+
+fn lf(r: usize) -> LevelFilter {
+    match r { 0 => LevelFilter::OFF, 1 => LevelFilter::ERROR, 2 => LevelFilter::WARN, 3 => LevelFilter::INFO, 4 => LevelFilter::DEBUG, _ => LevelFilter::TRACE }
+}
+
+fn rank_of(m: &Metadata<'_>) -> usize {
+    let l = *m.level();
+    if l == tracing_core::Level::ERROR { 1 } else if l == tracing_core::Level::WARN { 2 } else if l == tracing_core::Level::INFO { 3 } else if l == tracing_core::Level::DEBUG { 4 } else { 5 }
+}
+
+/// prefix expression: L<l> | T<hex> | E<hex> | F<pred><k>h<hint|-> | D<k>h<hint|->c<-|g> | N | S e | & e e | "|" e e | ! e | R e | B e
+fn build(toks: &[&str], pos: &mut usize) -> BoxF {
+    let t = toks[*pos];
+    *pos += 1;
+    let b = t.as_bytes();
+    match b[0] {
+        b'L' => Box::new(lf(t[1..].parse().unwrap())),
+        b'T' => Box::new(tv_harness::unhex_str(&t[1..]).parse::<Targets>().expect("targets")),
+        b'E' => Box::new(EnvFilter::builder().parse(tv_harness::unhex_str(&t[1..])).expect("env")),
+        b'F' => {
+            let pred = b[1] - b'0';
+            let k: usize = (b[2] - b'0') as usize;
+            let hint = &t[4..];
+            let f = filter_fn(move |m| match pred {
+                0 => rank_of(m) <= k,
+                1 => m.target().contains("db") && rank_of(m) <= k,
+                _ => m.is_span() && rank_of(m) <= k,
+            });
+            if hint == "-" { Box::new(f) } else { Box::new(f.with_max_level_hint(lf(hint.parse().unwrap()))) }
+        }
+        b'D' => {
+            let k: usize = (b[1] - b'0') as usize;
+            let rest = &t[3..];
+            let (hint, cs) = rest.split_once('c').unwrap();
+            let f = dynamic_filter_fn(move |m: &Metadata<'_>, _cx: &tracing_subscriber::subscribe::Context<'_, Registry>| FLAG.with(|f| f.get()) && rank_of(m) <= k);
+            match (hint, cs) {
+                ("-", "-") => Box::new(f),
+                (h, "-") => Box::new(f.with_max_level_hint(lf(h.parse().unwrap()))),
+                ("-", _) => Box::new(f.with_callsite_filter(move |m: &'static Metadata<'static>| if rank_of(m) <= k { Interest::sometimes() } else { Interest::never() })),
+                (h, _) => Box::new(f.with_max_level_hint(lf(h.parse().unwrap())).with_callsite_filter(move |m: &'static Metadata<'static>| if rank_of(m) <= k { Interest::sometimes() } else { Interest::never() })),
+            }
+        }
+        b'N' => Box::new(None::<BoxF>),
+        b'S' => Box::new(Some(build(toks, pos))),
+        b'&' => { let a = build(toks, pos); let c = build(toks, pos); Box::new(a.and(c)) }
+        b'|' => { let a = build(toks, pos); let c = build(toks, pos); Box::new(a.or(c)) }
+        b'!' => Box::new(build(toks, pos).not()),
+        b'R' => { let (f, _h) = tracing_subscriber::reload::Subscriber::new(build(toks, pos)); Box::new(f) }
+        b'B' => Box::new(build(toks, pos)),
+        _ => panic!("bad expr token {}", t),
+    }
+}
+
+thread_local! { static SEEN: Cell<usize> = const { Cell::new(0) }; }
+struct Nop;
+impl<C: tracing::Collect> Subscribe<C> for Nop {
+    fn on_event(&self, _: &tracing::Event<'_>, _: tracing_subscriber::subscribe::Context<'_, C>) { SEEN.with(|s| s.set(s.get() + 1)); }
+    fn on_new_span(&self, _: &tracing::span::Attributes<'_>, _: &tracing::span::Id, _: tracing_subscriber::subscribe::Context<'_, C>) { SEEN.with(|s| s.set(s.get() + 1)); }
+}
+
+/// the full emission protocol of the macros against a dispatch, for a synthetic metadata:
+/// `enabled` → `event` / `new_span`(+close); returns whether the recording layer saw it
+fn delivered(d: &tracing::Dispatch, m: &'static Metadata<'static>) -> bool {
+    SEEN.with(|s| s.set(0));
+    if d.enabled(m) {
+        let vs = m.fields().value_set(&[]);
+        if m.is_event() {
+            d.event(&tracing::Event::new(m, &vs));
+        } else {
+            let id = d.new_span(&tracing::span::Attributes::new(m, &vs));
+            d.try_close(id);
+        }
+    }
+    SEEN.with(|s| s.get()) > 0
+}
+
+fn eval_expr(toks: &[&str], uni: &[&'static Metadata<'static>]) -> String {
+    let mut p = 0;
+    let direct = build(toks, &mut p);
+    let mut p = 0;
+    let inside = build(toks, &mut p);
+    let cs: String = uni.iter().map(|m| ichar(direct.callsite_enabled(m))).collect();
+    let h = hint(direct.max_level_hint());
+    let d = tracing::Dispatch::new(tracing_subscriber::registry().with(Nop.with_filter(inside)));
+    let mut en = [String::new(), String::new()];
+    for (i, flag) in [false, true].iter().enumerate() {
+        FLAG.with(|f| f.set(*flag));
+        en[i] = uni.iter().map(|m| if delivered(&d, m) { '1' } else { '0' }).collect();
+    }
+    FLAG.with(|f| f.set(false));
+    format!("ok {} {} {} {}", cs, h, en[0], en[1])
+}
+
 fn main() {
     let uni = universe();
     tv_harness::serve(|t| {
-        let s = tv_harness::unhex_str(t[1]);
+        let s = if t[0] == "X" { String::new() } else { tv_harness::unhex_str(t[1]) };
         match t[0] {
             "T" => match s.parse::<Targets>() {
                 Err(_) => "err".into(),
@@ -67,6 +168,7 @@ fn main() {
                     format!("ok {} {}", bits, hint(f.max_level_hint()))
                 }
             },
+            "X" => match std::panic::catch_unwind(std::panic::AssertUnwindSafe(|| eval_expr(&t[1..], &uni))) { Ok(s) => s, Err(_) => "PANIC".into() },
             _ => "bad-op".into(),
         }
     });
